@@ -2,7 +2,7 @@
 From Coq Require Import List ZArith NArith Bool Permutation.
 Import ListNotations.
 From GS Require Import Num NumZ EventLoop Kernel.
-From GS.Proofs Require Import Aux EventLoopP KernelP.
+From GS.Proofs Require Import Aux EventLoopP KernelP DriveP.
 
 (** Conservation over every history of schedule / pop / peek / clear / len operations: what
     was queued plus what was accepted is, as a multiset, what was popped plus what was cleared
@@ -75,6 +75,16 @@ Theorem C02_run_conservation :
     Permutation (map key (el_q (k_el s)) ++ scheds items) (map ekey (execs items) ++ map key (el_q (k_el s'))).
 Proof. intros F A OL P H T hk c fuel s. exact (k_run_conservation A OL hk c fuel s). Qed.
 
+(** The same under ANY driving (steps interleaved with code outside the event loop that schedules
+    events, e.g. a node's provider called between two steps). *)
+Theorem C02_any_driving_conservation :
+  forall (F : Type) (A : ArithOps F), OrderLaws A -> forall (P H T : Type) (hk : hooks F P H T) (c : kcfg F)
+         (ops : list (kdrv F P H T)) (s : kstate F P H),
+    k_inv A s ->
+    let '(s', items) := k_drive A hk c ops s in
+    Permutation (map key (el_q (k_el s)) ++ scheds items) (map ekey (execs items) ++ map key (el_q (k_el s'))).
+Proof. intros F A OL P H T hk c ops s. exact (k_drive_conservation A OL hk c ops s). Qed.
+
 (** The iteration counter counts executed events. *)
 Theorem C02_iteration_counts_executions :
   forall (F : Type) (A : ArithOps F), OrderLaws A -> forall (P H T : Type) (hk : hooks F P H T) (c : kcfg F)
@@ -103,4 +113,5 @@ Print Assumptions C02_refused_unchanged.
 Print Assumptions C02_refused_iff.
 Print Assumptions C02_peek_is_next_pop.
 Print Assumptions C02_run_conservation.
+Print Assumptions C02_any_driving_conservation.
 Print Assumptions C02_iteration_counts_executions.
